@@ -174,3 +174,9 @@ def _sweeps(ctx, name, f, xs, D, P, rng):
             ctx.skip('ndarray-run-unsupported:' + name)
     finally:
         probe.S.suppress = False
+
+
+def finish(ctx):
+    from .. import core
+    ctx.extra['distinct_call_names_shadowed'] = len(ctx.extra.get('shadowed_calls_by_name', {}))
+    return core.finish(ctx, REQUIRED, RULE, assumptions=ASSUMPTIONS)
